@@ -1,9 +1,9 @@
 (* C12 tie: the forcing arrays of the Kolmogorov nonlinear functions regenerated from the source (gen_injection2d / gen_injection3d in
-   Gen/SpectralGen.v: the constructors of VorticityConvection2dKolmogorov / ProjectedConvection3dKolmogorov executed by
+   Gen/InjectionGen.v: the constructors of VorticityConvection2dKolmogorov / ProjectedConvection3dKolmogorov executed by
    harness/translate/spectral.py with the derivative operator the stepper hands over) ARE the model's injection arrays of
    Nonlin/Injection.v at the signed wavenumber vector of the stored index - for every N, forcing mode, scale, extent and index. *)
 From Coq Require Import ZArith QArith List Bool Field Ring Lia.
-From EXV Require Import Base.Scalar Base.FieldLemmas Layout.Freq Nonlin.Injection Gen.SpectralGen Tie.SpectralTie.
+From EXV Require Import Base.Scalar Base.FieldLemmas Layout.Freq Nonlin.Injection Gen.SpectralGen Gen.InjectionGen Tie.SpectralTie.
 Import ListNotations.
 
 Section Tie.
